@@ -248,7 +248,7 @@ func Judge(module string, events [][]byte, extra map[string][]byte) (JudgeResult
 	lastCfg := -1
 	for i := 0; i < len(events); i++ {
 		isCfg := kinds[i] == "Config" || kinds[i] == "Schema" || kinds[i] == "Cases"
-		boundary := isCfg || (caseStartKinds[kinds[i]] && module != "Trace_Concurrent") // a round of interleaved requests stays whole
+		boundary := isCfg || caseStartKinds[module][kinds[i]] // (Trace_Concurrent: a round of interleaved requests stays whole)
 		if boundary && len(cur) >= target {
 			chunks = append(chunks, chunk{cur, curOff})
 			cur = nil
@@ -304,7 +304,20 @@ func Judge(module string, events [][]byte, extra map[string][]byte) (JudgeResult
 }
 
 // events that start a self-contained case (a chunk may begin there once the last Config/Schema is repeated)
-var caseStartKinds = map[string]bool{"Req": true, "Reset": true, "Enc": true, "Dec": true, "Body": true, "Parse": true, "Gen": true, "Embed": true, "Call": true, "Read": true}
+// caseStartKinds: per judge, the events at which a new, independent case starts (a log may be cut there).
+// A judge that is not listed is only cut at Config / Schema / Cases sections.
+var caseStartKinds = map[string]map[string]bool{
+	"Trace_Pipeline": {"Req": true},
+	"Trace_GenDir":   {"Reset": true},
+	"Trace_Params":   {"Parse": true},
+	"Trace_Codec":    {"Enc": true, "Dec": true, "Body": true},
+	"Trace_Wire":     {"Call": true},
+	"Trace_Gen":      {"Gen": true},
+	"Trace_Embed":    {"Embed": true, "Served": true},
+	"Trace_Reader":   {"Read": true},
+	"Trace_Refs":     {"Pair": true},
+	"Trace_Answer":   {"Serve": true, "Fuzz": true},
+}
 
 func judgeOne(module string, events [][]byte, extra map[string][]byte, offset int) (JudgeResult, error) {
 	var jr JudgeResult
